@@ -173,7 +173,8 @@ def rnd_tree(rng):
         if rng.random() < 0.8:
             sd["impls"].append({"name": n, "protocol": "default", "type": n, "fields": {}, "signals": []})
     for _ in range(rng.choice([0, 1, 1, 2, 3])):
-        ty = rng.choice(snames + ["Z"]) if snames and rng.random() < 0.9 else "Z"
+        # a binding's target may be any name: a struct, nothing at all ("Z"), or a declared *enum* (not a struct either)
+        ty = rng.choice(snames + enames + ["Z"]) if (snames or enames) and rng.random() < 0.9 else "Z"
         nm = ty if rng.random() < 0.6 else rng.choice(NAMES + ["Y"])
         fields = {}
         r = rng.random()
